@@ -130,4 +130,17 @@ CHECKS = {
                  'returns within 200 virtual s is reported'),
         'technique': 'deterministic simulation with event-indexed triggers and slow/hanging connects + silence-window history check',
     },
+    'C05': {
+        'category': 'exploration',
+        'text': ('one real uploader with 1-5 scripted downloader users (status online/away/offline/unknown, friend, privileged; '
+                 '1-3 files each), slot limit 0..4 changed at run time, <= 14 events (queue requests in any order, reset mid-file, '
+                 'refusing / silent downloader, user abort, status / privilege / friend changes) with gaps straddling the 50 ms '
+                 'management-cycle spacing, upload speed limited so that uploads overlap. Monitors at every state notification '
+                 'and after every loop iteration: active <= limit in force, <= 1 per user, rank class at stable-rank instants, '
+                 'offline never; bounded liveness (120 s) in the cooperative tail.'),
+        'design_ref': 'DESIGN.md section 3 (C05)',
+        'note': ('rank knowledge = what the client was told (frames it processed); status classes are compared only when both '
+                 'statuses were learnt for the uploads in question; limit in force = max over the preceding 0.3 s'),
+        'technique': 'deterministic simulation with scripted downloaders and settings changes + per-iteration invariants and bounded liveness',
+    },
 }
